@@ -153,6 +153,21 @@ def feasible_mask(R, seed, density, overlap):
     return B
 
 
+def count_valid_swaps(R, B):
+    """ordered pairs of directed connection records (a,b), (c,d) on four distinct nodes whose target cells (a,d), (c,b)
+    are free and unmasked -- what randomize_graph_partial_und can accept"""
+    Bn = (R != 0)
+    Bm = (np.asarray(B) != 0)
+    n = len(R)
+    E = [(i, j) for i in range(n) for j in range(n) if i != j and Bn[i, j]]
+    cnt = 0
+    for (a, b) in E:
+        for (c, d) in E:
+            if len({a, b, c, d}) == 4 and not (Bn[a, d] or Bn[c, b] or Bm[a, d] or Bm[c, b]):
+                cnt += 1
+    return cnt
+
+
 def has_valid_swap(R, B):
     Bn = (R != 0)
     n = len(R)
